@@ -97,3 +97,10 @@ package common
 //@   modifies nothing
 //@   loop 0 invariant k % 256 == 0 && k <= bitlen + 255 && res != nil && fresh(res) && 0 <= val(res) && val(res) < pow2(k) && fresh(tmp) && countIdx == len(tmp) - 1 && countIdx >= 1 && (forall j in 0..len(tmp) :: tmp[j] != nil) && fresh(tmp[countIdx]) && tmp[countIdx] != res
 //@   loop 0 modifies onlyfresh("BV")
+
+//@ func RandomBigInt
+//@   property C14 C16 C19
+//@   safety
+//@   ensures range: err == nil ==> result0 != nil && fresh(result0) && 0 <= val(result0) && val(result0) < pow2(numBits)
+//@   ensures fail: err != nil ==> result0 == nil
+//@   modifies nothing
